@@ -9,7 +9,7 @@ import (
 )
 
 // Content classes.
-var Classes = []string{"photo", "noise", "flat", "pal2", "pal3", "pal4", "pal5", "pal16", "pal17", "pal64", "pal256", "pal257", "checker", "gradient", "tiles", "pal1", "bands", "pillarbox"}
+var Classes = []string{"photo", "noise", "flat", "pal2", "pal3", "pal4", "pal5", "pal16", "pal17", "pal64", "pal256", "pal257", "checker", "gradient", "tiles", "pal1", "bands", "pillarbox", "flatblock"}
 
 // Alpha patterns.
 var Alphas = []string{"opaque", "binary", "levels3", "levels16", "levels17", "gradient", "noise", "onepix", "alltransparent", "edge1_254", "transparentrgb", "blocks"}
@@ -147,6 +147,27 @@ func fillColor(r *rand.Rand, m *image.NRGBA, class string) {
 					c = p[r.Intn(len(p))]
 				}
 				set(x, y, c)
+			}
+		}
+	case class == "flatblock":
+		// noise everywhere except one or two flat macroblock-aligned 16x16 blocks at the border:
+		// almost every macroblock lands in one segment, a handful in another.
+		for i := 0; i < len(m.Pix); i += 4 {
+			m.Pix[i], m.Pix[i+1], m.Pix[i+2], m.Pix[i+3] = uint8(r.Intn(256)), uint8(r.Intn(256)), uint8(r.Intn(256)), 255
+		}
+		for k := 0; k < 1+r.Intn(2); k++ {
+			bx, by := 0, 0
+			if w > 16 && r.Intn(2) == 0 {
+				bx = ((w - 1) / 16) * 16 * r.Intn(2)
+			}
+			if h > 16 {
+				by = r.Intn((h+15)/16) * 16
+			}
+			flat := color.NRGBA{uint8(r.Intn(256)), uint8(r.Intn(256)), uint8(r.Intn(256)), 255}
+			for y := by; y < min(h, by+16); y++ {
+				for x := bx; x < min(w, bx+16); x++ {
+					set(x, y, flat)
+				}
 			}
 		}
 	case class == "bands" || class == "pillarbox":
